@@ -1,14 +1,16 @@
 // gotr — translator and fact extractor from /repo's Go source to Lean.
 //
 // Passes (see DESIGN.md §2.2):
-//   T1 kernel : straight-line integer functions → deep-embedded IR (Gen/FieldIR, Gen/ScalarIR)
-//   T2 formula: chained FieldVal method calls → FOp programs (Gen/Formulas)
-//   T3 consts : named constants and literals → Gen/Consts
-//   T5 ct     : functions documented constant time → Gen/CT
-//   T6 shared : package-level state and writes → Gen/Shared
-//   T7 bytes  : guard-style byte parsers (ParseDERSignature) → executable Lean in the Outcome monad (Gen/BytesProg)
-//   T8 drivers: value-level glue functions (sign, Verify, RecoverPublicKey, Schnorr, ECDH …) → executable Lean (Gen/Drivers)
-//   T2s slice : field arithmetic of every other function (Verify, sign, parsers, loops …) → Gen/Slices
+//
+//	T1 kernel : straight-line integer functions → deep-embedded IR (Gen/FieldIR, Gen/ScalarIR)
+//	T2 formula: chained FieldVal method calls → FOp programs (Gen/Formulas)
+//	T3 consts : named constants and literals → Gen/Consts
+//	T5 ct     : functions documented constant time → Gen/CT
+//	T6 shared : package-level state and writes → Gen/Shared
+//	T7 bytes  : guard-style byte parsers (ParseDERSignature) → executable Lean in the Outcome monad (Gen/BytesProg)
+//	T8 drivers: value-level glue functions (sign, Verify, RecoverPublicKey, Schnorr, ECDH …) → executable Lean (Gen/Drivers)
+//	T2s slice : field arithmetic of every other function (Verify, sign, parsers, loops …) → Gen/Slices
+//
 // Every pass fails closed: anything outside its subset is an error (exit 1),
 // which ./check reports as a broken tie.
 package main
@@ -140,6 +142,13 @@ func main() {
 	}
 	var errs []string
 	files := map[string]string{}
+	// a pass that crashes on a construct it does not expect is a rejected source, not a crashed check
+	defer func() {
+		if r := recover(); r != nil {
+			fmt.Fprintln(os.Stderr, "gotr: translator stopped on a construct outside every pass's subset:", r)
+			os.Exit(1)
+		}
+	}()
 	add := func(name, content string, e []string) {
 		files[name] = content
 		errs = append(errs, e...)
